@@ -236,26 +236,42 @@ func (o Op) pureIncrement() bool {
 	return false
 }
 
-func allCalls(progs [][]Op) []Op {
+func allCalls(progs [][]Op, writable string) []Op {
 	var ops []Op
 	for _, p := range progs {
 		for _, o := range p {
-			ops = append(ops, o)
-			ops = append(ops, o.Rivals...)
+			ops = append(ops, o.eff(writable))
+			for _, r := range o.Rivals {
+				ops = append(ops, r.eff(writable))
+			}
 		}
 	}
 	return ops
 }
 
+// effHist: the history with every call as the merge sees it (writable-field restriction of the resource applied)
+func effHist(writable string, hist []HOp) []HOp {
+	if writable == "" {
+		return hist
+	}
+	out := make([]HOp, len(hist))
+	for i, h := range hist {
+		h.Op = h.Op.eff(writable)
+		out[i] = h
+	}
+	return out
+}
+
 func judge(sc Scenario, hist []HOp, final map[int]P) *verdict {
 	init := sc.initMap()
+	hist = effHist(sc.Writable, hist)
 	// specific clauses first, so that signatures stay specific
 	addsOK := map[int]int{}
 	deletes := map[int]bool{}
 	pureInc := map[int]bool{}
 	anyGen := false
 	sum := map[int]P{}
-	for _, o := range allCalls(sc.Progs) {
+	for _, o := range allCalls(sc.Progs, sc.Writable) {
 		if o.Gen {
 			anyGen = true
 			continue
@@ -472,7 +488,7 @@ func genScenario(rng *rand.Rand, maxThreads, maxOps int) Scenario {
 	}
 	nt := 2 + rng.Intn(maxThreads-1)
 	// some scenarios are Delete-heavy, increment-only, CAS-only or generate their ids, so that the rarer paths are visited
-	mode := rng.Intn(9)
+	mode := rng.Intn(11)
 	if mode == 3 { // generated ids: a short candidate script makes callers draw the same id; some candidates are taken
 		sc.Cands = [][]int{{0}, {0, 1}, {0, 0, 1}, {1, 0}, {}}[rng.Intn(5)]
 		if rng.Intn(2) == 0 {
@@ -523,6 +539,19 @@ func genScenario(rng *rand.Rand, maxThreads, maxOps int) Scenario {
 				prog = append(prog, Op{K: "u", Gen: true, EA: true, CIA: true, ViaAdd: rng.Intn(2) == 0, F: "s" + genVal(rng).String()})
 			case mode == 3:
 				prog = append(prog, Op{K: "d", ID: genBase + 10*rng.Intn(2), AM: rng.Intn(2) == 0})
+			case mode == 6 || mode == 7: // partial writers: each call replaces (or adds to) ONE field through its mask, most of them plain (no precondition, no callback)
+				fld := []string{"a", "b"}[rng.Intn(2)]
+				o := Op{K: "u", ID: ids[0], Mask: fld, F: "s" + genVal(rng).String()}
+				if rng.Intn(4) == 0 {
+					o.F = fld + strconv.Itoa(1+rng.Intn(2))
+				}
+				if mode == 7 {
+					o.K, o.ID = "v", valueID
+				}
+				if fl.wt == "same" {
+					o.WT = pi64(fl.sameWT)
+				}
+				prog = append(prog, o)
 			case mode == 5: // increments of the Value
 				o := Op{K: "v", ID: valueID, F: []string{"a", "a", "b"}[rng.Intn(3)] + strconv.Itoa(1+rng.Intn(3))}
 				if fl.masks && rng.Intn(2) == 0 {
@@ -544,7 +573,33 @@ func genScenario(rng *rand.Rand, maxThreads, maxOps int) Scenario {
 	if mode == 5 && rng.Intn(4) > 0 {
 		sc.Init[strconv.Itoa(valueID)] = genVal(rng)
 	}
+	if mode == 6 && rng.Intn(4) > 0 {
+		sc.Init[strconv.Itoa(ids[0])] = genVal(rng)
+	}
+	if mode == 7 && rng.Intn(4) > 0 {
+		sc.Init[strconv.Itoa(valueID)] = genVal(rng)
+	}
+	if mode != 6 && mode != 7 && rng.Intn(6) == 0 {
+		sc.restrictWritable([]string{"a", "b"}[rng.Intn(2)])
+	}
 	return sc
+}
+
+// restrictWritable configures the resources with one writable field; update masks then name that field only
+func (sc *Scenario) restrictWritable(w string) {
+	sc.Writable = w
+	for _, p := range sc.Progs {
+		for i := range p {
+			if p[i].Mask != "" {
+				p[i].Mask = w
+			}
+			for j := range p[i].Rivals {
+				if p[i].Rivals[j].Mask != "" {
+					p[i].Rivals[j].Mask = w
+				}
+			}
+		}
+	}
 }
 
 // genNested: one call whose callback makes 1-5 complete rival calls on the same record / Value; frozen clock
@@ -595,6 +650,9 @@ func genNested(rng *rand.Rand) Scenario {
 	}
 	outer.RivalAt = []string{"c", "b"}[rng.Intn(2)]
 	sc.Progs = [][]Op{{outer}}
+	if rng.Intn(6) == 0 {
+		sc.restrictWritable([]string{"a", "b"}[rng.Intn(2)])
+	}
 	return sc
 }
 
@@ -633,6 +691,17 @@ func witnessScenarios() []Scenario {
 			{Op{K: "v", ID: valueID, Expect: pp(1, 1), F: set(2, 0), Mask: "a"}}, {Op{K: "v", ID: valueID, Expect: pp(1, 1), F: "b2", Mask: "b"}}}},
 		// masked increments of different fields of one record: neither may be lost
 		{Init: map[string]P{"0": {1, 1}}, Progs: [][]Op{{masked(inc(1), "a")}, {masked(Op{K: "u", ID: 0, F: "b2"}, "b")}}},
+		// plain partial writers (no precondition, no callback): each replaces one field through its mask and carries
+		// the other one over from the value it read; against each other, against an increment of the other field,
+		// on a resource whose writable fields are restricted (an unmasked write is then partial too), and two blind
+		// writers of the whole message
+		{Init: map[string]P{"9": {1, 1}}, Progs: [][]Op{{Op{K: "v", ID: valueID, F: set(5, 0), Mask: "a"}}, {Op{K: "v", ID: valueID, F: set(0, 7), Mask: "b"}}}},
+		{Init: map[string]P{"9": {1, 1}}, Clock: "f", Progs: [][]Op{{Op{K: "v", ID: valueID, F: set(5, 0), Mask: "a"}}, {masked(Op{K: "v", ID: valueID, F: "b2"}, "b")}}},
+		{Init: map[string]P{"0": {1, 1}}, Progs: [][]Op{{Op{K: "u", ID: 0, F: set(5, 0), Mask: "a"}}, {Op{K: "u", ID: 0, F: set(0, 7), Mask: "b"}}}},
+		{Init: map[string]P{"0": {1, 1}}, Progs: [][]Op{{Op{K: "u", ID: 0, CIA: true, F: set(5, 0), Mask: "a"}}, {masked(Op{K: "u", ID: 0, F: "b2"}, "b")}}},
+		{Init: map[string]P{"9": {1, 1}}, Writable: "a", Progs: [][]Op{{Op{K: "v", ID: valueID, F: set(5, 0)}}, {Op{K: "v", ID: valueID, F: set(6, 0), After: true}}}},
+		{Init: map[string]P{"0": {1, 1}}, Writable: "a", Clock: "f", Progs: [][]Op{{Op{K: "u", ID: 0, F: set(5, 0)}}, {Op{K: "u", ID: 0, F: set(6, 0), After: true}}}},
+		{Init: map[string]P{"9": {1, 1}}, Progs: [][]Op{{Op{K: "v", ID: valueID, F: set(2, 0)}}, {Op{K: "v", ID: valueID, F: set(3, 0)}}}},
 		// clocks that do not tell writes apart, equal write times: the stamp is not a version
 		{Init: map[string]P{"9": {1, 0}}, Clock: "f", Progs: [][]Op{{vinc(1)}, {vinc(2)}}},
 		{Init: map[string]P{"9": {1, 0}}, Clock: "c", Progs: [][]Op{{vinc(1)}, {vcas(1, 5)}}},
@@ -710,6 +779,8 @@ func pairScenarios() []Scenario {
 		{K: "d", ID: 0, AM: true, Check: "eq1"},
 		{K: "u", Gen: true, EA: true, CIA: true, F: "s5.0"},
 		{K: "d", ID: genBase, AM: true},
+		{K: "u", ID: 0, F: "s5.1", Mask: "a"},            // plain partial writers: no precondition, no callback
+		{K: "u", ID: 0, CIA: true, F: "s0.7", Mask: "b"}, //
 	}
 	val := []Op{
 		{K: "v", ID: valueID, F: "a1"},
@@ -718,6 +789,9 @@ func pairScenarios() []Scenario {
 		{K: "v", ID: valueID, Expect: pp(1, 1), F: "s2.0", Mask: "a"},
 		{K: "v", ID: valueID, Expect: pp(1, 1), F: "s0.3", Mask: "b"},
 		{K: "v", ID: valueID, Check: "ne2", F: "s3.1", WT: pi64(0)},
+		{K: "v", ID: valueID, F: "s5.1", Mask: "a"}, // plain partial writers
+		{K: "v", ID: valueID, F: "s0.7", Mask: "b"},
+		{K: "v", ID: valueID, F: "s4.4"}, // a blind write of the whole message
 	}
 	var out []Scenario
 	for i := range coll {
@@ -777,7 +851,7 @@ func main() {
 	ctl := k4.New(parkPoints...)
 
 	tie := res.Tie("k4-schedules", "K4",
-		"each case = one scenario (2-3 writers x 1-2 calls from {Add, Add with a generated id, upsert, Update with expected value/check, delta interceptor, Delete with precondition, Value.Set}, each with or without an update mask on one of the two message fields and a write time, on 1-2 ids + a Value, under a ticking / frozen / coarse injected clock and a scripted id generator) executed on the real code under one schedule forced through the yield points gau.afterRead / gau.beforeLock / coll.delete.afterRead; per-call results (with generated ids), final contents, the change time stored with every value and the number of rng reads compared with run(model) on the same schedule; non-trivial = at least two calls overlapped; distinct = distinct (scenario, schedule)")
+		"each case = one scenario (2-3 writers x 1-2 calls from {Add, Add with a generated id, upsert, Update with expected value/check, delta interceptor, Delete with precondition, Value.Set}, each with or without an update mask on one of the two message fields and a write time, on 1-2 ids + a Value, under a ticking / frozen / coarse injected clock and a scripted id generator) executed on the real code under one schedule forced through the yield points gau.afterRead / gau.beforeLock / coll.delete.afterRead; per-call results (with generated ids), final contents, the change time stored with every value, the number of rng reads and the steps at which every call was invoked and returned (the model's ghost real time invT/respT of C02_linearization_respects_step_order) compared with run(model) on the same schedule; scenarios include plain partial writers (update mask or a resource restricted WithWritablePaths to one field, no precondition, no callback); non-trivial = at least two calls overlapped; distinct = distinct (scenario, schedule)")
 	ntie := res.Tie("nested-rivals", "K4",
 		"no hooks, no goroutines: each case = one call whose own callback (WithExpectedCheck / InterceptBefore, run by the write path with no lock held) makes 1-5 complete rival calls, i.e. between the call's optimistic read and its write lock; frozen clock; compared with run(model) on the schedule read ▸ rival to completion ▸ next step (one model thread per call that ran); non-trivial = a rival ran; distinct = distinct scenario")
 	ctie := res.Tie("linearization-certificate", "K4",
@@ -895,6 +969,7 @@ func main() {
 			for i, c := range cases {
 				n := len(c.run.Progs)
 				model, lin := splitLin(answers[i])
+				model, rt := splitRT(model)
 				// the model must also say every thread is finished after exactly these steps
 				wantPc := "|pc=" + strings.Repeat("i", n)
 				code := c.run.canon() + fmt.Sprintf("|log=%d", countCommits(c.run.Hist)) + wantPc + fmt.Sprintf("|rng=%d", c.run.RNG)
@@ -904,6 +979,12 @@ func main() {
 				if i >= hooked {
 					tt = ntie
 					nontrivial = len(c.run.Progs) > 1
+				} else {
+					// real time, step by step: the model's ghost stamps of invocation and response (the time base of
+					// C02_linearization_respects_step_order) against the steps at which the real calls were released
+					// and returned
+					model += "|rt=" + rt
+					code += "|rt=" + realTimes(c.run.Hist)
 				}
 				tt.Record(lines[i], nontrivial, in, model, code)
 				if !c.run.Stuck {
@@ -915,6 +996,9 @@ func main() {
 					tt.Count(h.Op.optionClass())
 				}
 				tt.Count("clock:" + c.sc.clock())
+				if c.sc.Writable != "" {
+					tt.Count("writable-fields:" + c.sc.Writable)
+				}
 			}
 		}
 	}
@@ -957,11 +1041,37 @@ func splitLin(answer string) (string, []string) {
 	return answer[:i], strings.Split(answer[i+5:], ",")
 }
 
+// splitRT separates the model's step-level invocation/response stamps from the rest of its answer.
+func splitRT(answer string) (string, string) {
+	i := strings.LastIndex(answer, "|rt=")
+	if i < 0 {
+		return answer, "?"
+	}
+	return answer[:i], answer[i+4:]
+}
+
+// realTimes: per finished call (by thread, then by position) the step at which it was released into its first
+// section and the step at which it returned; the clock showed step+1 during a step.
+func realTimes(hist []HOp) string {
+	hs := append([]HOp{}, hist...)
+	sort.Slice(hs, func(i, j int) bool {
+		if hs[i].T != hs[j].T {
+			return hs[i].T < hs[j].T
+		}
+		return hs[i].N < hs[j].N
+	})
+	var parts []string
+	for _, h := range hs {
+		parts = append(parts, fmt.Sprintf("%d.%d:%d-%d", h.T, h.N, h.Inv+1, h.Resp+1))
+	}
+	return strings.Join(parts, ",")
+}
+
 // certify checks the model's linearization against the real execution; "valid" or the reason it is not.
 func certify(sc Scenario, r *Run, lin []string) string {
 	calls := map[string]HOp{}
 	want := 0
-	for _, h := range r.Hist {
+	for _, h := range effHist(sc.Writable, r.Hist) {
 		calls[fmt.Sprintf("%d.%d", h.T, h.N)] = h
 		if !lostRace(h.Res) {
 			want++
@@ -1003,6 +1113,9 @@ func (sc Scenario) input(sched []int) map[string]any {
 	if len(sc.Cands) > 0 {
 		in["cands"] = sc.Cands
 	}
+	if sc.Writable != "" {
+		in["writable"] = sc.Writable
+	}
 	if sc.Nested {
 		in["mode"] = "nested"
 		in["nested"] = true
@@ -1032,10 +1145,18 @@ func (o Op) optionClass() string {
 	if o.After {
 		parts = append(parts, "after")
 	}
+	if o.plain() {
+		parts = append(parts, "plain") // no precondition and no callback: nothing of the caller's runs between read and lock
+	}
 	if len(parts) == 0 {
 		return "opts:none"
 	}
 	return "opts:" + strings.Join(parts, "+")
+}
+
+// plain: a write with no precondition and no interceptor
+func (o Op) plain() bool {
+	return o.K != "d" && !o.EA && o.Expect == nil && o.check() == "n" && !o.After && len(o.F) > 0 && o.F[0] == 's' && len(o.Rivals) == 0
 }
 
 func codeOf(res string) string {
